@@ -131,8 +131,10 @@ Theorem C07_with_state_rule_ift :
        end.
 Proof. exact with_state_rule_ift. Qed.
 
-(* nonlinear_solve_b as extracted re-establishes slot 2 of objective.p only: if the other slots are what they were when the forward pass ran
-   (pobj), the single returned cotangent is the implicit-function cotangent of the design slot at the forward parameters *)
+(* nonlinear_solve_b as extracted (since /repo 42a60d0 its forward rule saves ALL parameters the solve ran with and the reverse rule re-establishes them --
+   RestoreSaved, like the with-state rule): WHATEVER objective.p holds when the rule runs, the single returned cotangent is the implicit-function cotangent
+   of the design slot at the SAVED parameters, q0 being the design they carry (C07_forward_rule_saves_params_run_with: they are the parameters of the
+   forward solve and they do carry it).  No hypothesis on objective.p any more. *)
 Theorem C07_design_rule_ift :
   forall (V P : Type) (vadd : V -> V -> V) (vscale : R -> V -> V) (ipV : V -> V -> R) (ipP : P -> P -> R)
     (gradx : V -> Par P -> V) (vjp_at : (P -> V) -> P -> V -> P) (jvp_at : (V -> V) -> V -> V -> V) (deriv : (P -> V) -> P -> P -> V)
@@ -140,8 +142,27 @@ Theorem C07_design_rule_ift :
   (forall a b, ipV a b = ipV b a) ->
   (forall a b c t, ipV a (vadd b (vscale t c)) = ipV a b + t * ipV a c) ->
   (forall g q w dp, ipP dp (vjp_at g q w) = ipV (deriv g q dp) w) ->
-  forall (e : renv V P) (pobj : Par P),
+  forall (e : renv V P) (q0 : P),
   let o := rule_out V P gradx vjp_at jvp_at cg vzero precond objective_vjp_closures rule_nonlinear_solve_b restore_nonlinear_solve_b
+             objective_hessian_vec_is_jvp_of_grad_x_at_self_p e in
+  nth 2 (e_psaved V P e) None = Some q0 ->
+  solve_hyps V P vadd vscale ipV gradx jvp_at cg vzero (e_psaved V P e) (e_Uu V P e) (e_v V P e) ->
+  fst o = vzero
+  /\ exists c, snd o = [CotVal P c]
+       /\ forall dp u, ift_tangent V P ipV gradx jvp_at deriv (e_psaved V P e) (e_Uu V P e) 2 q0 dp u -> ipV (e_v V P e) u = ipP dp c.
+Proof. exact design_rule_ift. Qed.
+
+(* the rule shape BEFORE that fix (model value RestoreSlot 2: only the design slot of objective.p re-established) needed the other slots of objective.p to be
+   what they were when the forward pass ran (pobj) -- kept as a statement about that shape of the model, see C07_design_rule_load_stepping_refuted below *)
+Theorem C07_design_rule_prefix_ift :
+  forall (V P : Type) (vadd : V -> V -> V) (vscale : R -> V -> V) (ipV : V -> V -> R) (ipP : P -> P -> R)
+    (gradx : V -> Par P -> V) (vjp_at : (P -> V) -> P -> V -> P) (jvp_at : (V -> V) -> V -> V -> V) (deriv : (P -> V) -> P -> P -> V)
+    (cg : V -> V -> (V -> V) -> (V -> V) -> option R -> V * V) (vzero : V) (precond : V -> V),
+  (forall a b, ipV a b = ipV b a) ->
+  (forall a b c t, ipV a (vadd b (vscale t c)) = ipV a b + t * ipV a c) ->
+  (forall g q w dp, ipP dp (vjp_at g q w) = ipV (deriv g q dp) w) ->
+  forall (e : renv V P) (pobj : Par P),
+  let o := rule_out V P gradx vjp_at jvp_at cg vzero precond objective_vjp_closures rule_nonlinear_solve_b (RestoreSlot 2)
              objective_hessian_vec_is_jvp_of_grad_x_at_self_p e in
   let pfwd := upd P pobj 2 (e_dsaved V P e) in
   List.length pobj = 6%nat ->
@@ -150,7 +171,7 @@ Theorem C07_design_rule_ift :
   fst o = vzero
   /\ exists c, snd o = [CotVal P c]
        /\ forall dp u, ift_tangent V P ipV gradx jvp_at deriv pfwd (e_Uu V P e) 2 (e_dsaved V P e) dp u -> ipV (e_v V P e) u = ipP dp c.
-Proof. exact design_rule_ift. Qed.
+Proof. exact design_rule_prefix_ift. Qed.
 
 (* the slot helpers linearise at the objective's actual parameters: putting back into slot k the value it holds changes nothing
    (on the regenerated param_index_update table), so d/dq grad_x(x, update(p, k, q)) at q = p[k] is the slot-k parameter Jacobian at p *)
@@ -199,10 +220,11 @@ Proof. exact with_state_rule_total. Qed.
    the mutable attribute objective.p (threaded through the sweep: s_pobj), receives the direct cotangent of its solution plus what later solves sent
    back (s_ubar; the previous solution is also the initial guess, whose cotangent is the rule's first component), and its Params cotangents are pulled
    back to the global parameters theta (b_At) and to the previous solution (b_Bt).  hist_ok (proofs/L_C07_Hist.v) asks of every solve, in sweep order:
-   (nonlinear_solve only) slots 0,1,3,4,5 of objective.p at the moment its reverse rule runs are what they were in its forward pass; solve_hyps at the
-   forward solution and parameters; t_dp k = tangent of the value of slot k given dth and the tangent of the previous solution; t_dU = implicit-function
-   tangent of the solution for all slots together.  Conclusion: the sweep never gets stuck and the accumulated cotangent of theta pairs with dth as
-   sum_k <v_k, dU_k> -- the derivative of the history by the chained implicit function theorem. *)
+   solve_hyps at the forward solution and the SAVED parameters; (nonlinear_solve only) the saved Params carry a design; t_dp k = tangent of the value of slot k
+   given dth and the tangent of the previous solution; t_dU = implicit-function tangent of the solution for all slots together.  NOTHING is asked of
+   objective.p, neither at the start of the sweep (s_pobj st0 is arbitrary) nor between the solves, for either entry point (since /repo 42a60d0).
+   Conclusion: the sweep never gets stuck and the accumulated cotangent of theta pairs with dth as sum_k <v_k, dU_k> -- the derivative of the history by
+   the chained implicit function theorem. *)
 Theorem C07_history_adjoint :
   forall (V P Th : Type) (vadd : V -> V -> V) (vscale : R -> V -> V) (thadd : Th -> Th -> Th)
     (ipV : V -> V -> R) (ipP : P -> P -> R) (ipT : Th -> Th -> R) (gradx : V -> Par P -> V) (vjp_at : (P -> V) -> P -> V -> P)
@@ -214,7 +236,7 @@ Theorem C07_history_adjoint :
   (forall a b c, ipT a (thadd b c) = ipT a b + ipT a c) ->
   (forall g q w dp, ipP dp (vjp_at g q w) = ipV (deriv g q dp) w) ->
   forall (dth : Th) (dU0 : V) (l : list (bstep V P Th * tstep V P)) (st0 : sstate V P Th),
-  hist_ok V P Th vadd vscale ipV ipP ipT gradx jvp_at deriv cg vzero (s_pobj V P Th st0) dth dU0 l ->
+  hist_ok V P Th vadd vscale ipV ipP ipT gradx jvp_at deriv cg vzero dth dU0 l ->
   exists st,
     sweep V P Th gradx vjp_at jvp_at cg vzero precond vadd vscale thadd objective_vjp_closures
       rule_nonlinear_solve_with_state_b rule_nonlinear_solve_b restore_nonlinear_solve_with_state_b restore_nonlinear_solve_b
@@ -223,8 +245,7 @@ Theorem C07_history_adjoint :
        = ipT dth (s_thbar V P Th st0) + ipV (head_dU V P Th dU0 l) (s_ubar V P Th st0) + vsum V P Th ipV l.
 Proof. exact history_adjoint. Qed.
 
-(* histories of nonlinear_solve_with_state: NOTHING is asked of objective.p -- hist_ok may be checked with any parameters (pany), the sweep may start
-   from any others (what the last forward solve, or anything run in between, left there) *)
+(* histories of nonlinear_solve_with_state (named special case) *)
 Theorem C07_with_state_history_adjoint :
   forall (V P Th : Type) (vadd : V -> V -> V) (vscale : R -> V -> V) (thadd : Th -> Th -> Th)
     (ipV : V -> V -> R) (ipP : P -> P -> R) (ipT : Th -> Th -> R) (gradx : V -> Par P -> V) (vjp_at : (P -> V) -> P -> V -> P)
@@ -235,9 +256,9 @@ Theorem C07_with_state_history_adjoint :
   (forall a, ipV a vzero = 0) ->
   (forall a b c, ipT a (thadd b c) = ipT a b + ipT a c) ->
   (forall g q w dp, ipP dp (vjp_at g q w) = ipV (deriv g q dp) w) ->
-  forall (dth : Th) (dU0 : V) (l : list (bstep V P Th * tstep V P)) (st0 : sstate V P Th) (pany : Par P),
+  forall (dth : Th) (dU0 : V) (l : list (bstep V P Th * tstep V P)) (st0 : sstate V P Th),
   Forall (fun bt => b_state V P Th (fst bt) = true) l ->
-  hist_ok V P Th vadd vscale ipV ipP ipT gradx jvp_at deriv cg vzero pany dth dU0 l ->
+  hist_ok V P Th vadd vscale ipV ipP ipT gradx jvp_at deriv cg vzero dth dU0 l ->
   exists st,
     sweep V P Th gradx vjp_at jvp_at cg vzero precond vadd vscale thadd objective_vjp_closures
       rule_nonlinear_solve_with_state_b rule_nonlinear_solve_b restore_nonlinear_solve_with_state_b restore_nonlinear_solve_b
@@ -246,9 +267,9 @@ Theorem C07_with_state_history_adjoint :
        = ipT dth (s_thbar V P Th st0) + ipV (head_dU V P Th dU0 l) (s_ubar V P Th st0) + vsum V P Th ipV l.
 Proof. exact with_state_history_adjoint. Qed.
 
-(* histories of nonlinear_solve: if every forward pass ran while slots 0,1,3,4,5 of objective.p were those of pobj0 and the sweep starts from an
-   objective.p with the same slots, the reverse rules (which re-establish the design slot only) keep that true and the sweep returns the adjoint of the
-   chained implicit-function tangents at the FORWARD parameters upd (t_pobj) 2 design *)
+(* histories of nonlinear_solve: NO hypothesis on objective.p -- not on the start of the sweep, not on what the forward passes or anything run in between
+   (load stepping: objective.p = param_index_update(objective.p, 0, load_k)) left there; the tangents are those at the Params each forward rule saved, which
+   are the parameters its solve ran with (C07_forward_rule_saves_params_run_with) *)
 Theorem C07_design_history_adjoint :
   forall (V P Th : Type) (vadd : V -> V -> V) (vscale : R -> V -> V) (thadd : Th -> Th -> Th)
     (ipV : V -> V -> R) (ipP : P -> P -> R) (ipT : Th -> Th -> R) (gradx : V -> Par P -> V) (vjp_at : (P -> V) -> P -> V -> P)
@@ -259,9 +280,8 @@ Theorem C07_design_history_adjoint :
   (forall a, ipV a vzero = 0) ->
   (forall a b c, ipT a (thadd b c) = ipT a b + ipT a c) ->
   (forall g q w dp, ipP dp (vjp_at g q w) = ipV (deriv g q dp) w) ->
-  forall (pobj0 : Par P) (dth : Th) (dU0 : V) (l : list (bstep V P Th * tstep V P)) (st0 : sstate V P Th),
-  List.length (s_pobj V P Th st0) = 6%nat -> agree_off2 P (s_pobj V P Th st0) pobj0 ->
-  design_hist_ok V P Th vadd vscale ipV ipP ipT gradx jvp_at deriv cg vzero pobj0 dth dU0 l ->
+  forall (dth : Th) (dU0 : V) (l : list (bstep V P Th * tstep V P)) (st0 : sstate V P Th),
+  design_hist_ok V P Th vadd vscale ipV ipP ipT gradx jvp_at deriv cg vzero dth dU0 l ->
   exists st,
     sweep V P Th gradx vjp_at jvp_at cg vzero precond vadd vscale thadd objective_vjp_closures
       rule_nonlinear_solve_with_state_b rule_nonlinear_solve_b restore_nonlinear_solve_with_state_b restore_nonlinear_solve_b
@@ -272,12 +292,21 @@ Proof. exact design_history_adjoint. Qed.
 
 (* the forward passes (model/M_C07_Hist.v, FwdSem; regenerated: the primal of nonlinear_solve runs the equation solver with objective.p whose slot 2 is
    replaced by its argument, the primal of nonlinear_solve_with_state with its Params argument, nonlinear_equation_solve leaves objective.p = the parameters it
-   was given on every path): *)
+   was given on every path, the forward rule of nonlinear_solve saves objective.p -- as the primal left it -- with slot 2 := its argument, that of
+   nonlinear_solve_with_state its argument): *)
 Theorem C07_forward_tables_resolve : fwd_tables_ok = true.
 Proof. exact fwd_tables_resolve. Qed.
-(* ... so in a history made of nonlinear_solve calls only (arguments may depend on the previous solution) slots 0,1,3,4,5 of objective.p never change: at the
-   start of every forward pass and at the end objective.p agrees with the initial pobj0 off slot 2, and every solve ran with upd (objective.p then) 2 design.
-   This discharges the hypotheses of C07_design_history_adjoint on t_pobj and on the start of the sweep for such histories. *)
+(* ... so BOTH forward rules save exactly the parameters their solve ran with, objective.p holds them afterwards, and for nonlinear_solve they are
+   objective.p-before with the design slot := the argument and carry that design (what hist_ok / C07_design_rule_ift ask of the saved Params) *)
+Theorem C07_forward_rule_saves_params_run_with : forall (V P : Type) (solve : V -> Par P -> V) (pobj : Par P) (u : V) (c : fcall P),
+  List.length pobj = 6%nat ->
+  let '(pobj', x, p, saved) := fwd_rule V P solve primal_params_nonlinear_solve primal_params_nonlinear_solve_with_state equation_solve_assigns_objective_p
+                                 fwd_saves_nonlinear_solve fwd_saves_nonlinear_solve_with_state pobj u c in
+  saved = p /\ pobj' = p /\ x = solve u p
+  /\ match c with FDesign d => p = upd P pobj 2 d /\ nth 2 saved None = Some d | FState q => p = q end.
+Proof. exact fwd_rule_saves_params_run_with. Qed.
+(* in a history made of nonlinear_solve calls only (arguments may depend on the previous solution) slots 0,1,3,4,5 of objective.p never change (still true;
+   no longer needed by the history theorem) *)
 Theorem C07_forward_design_invariant : forall (V P : Type) (solve : V -> Par P -> V) (pobj0 : Par P), List.length pobj0 = 6%nat ->
   forall (cs : list (V -> fcall P)) (pobj : Par P) (u : V),
   (forall c u', In c cs -> exists d, c u' = FDesign P d) -> List.length pobj = 6%nat -> agree_off2 P pobj pobj0 ->
@@ -291,10 +320,12 @@ Theorem C07_forward_state_params : forall (V P : Type) (solve : V -> Par P -> V)
   = (p, solve u p, p).
 Proof. exact fwd_state_params. Qed.
 
-(* REFUTED without that hypothesis (finding C07-DESIGN-RESTORE, reproduced on the implementation): load stepping through objective.p.  V = P = R, gradient
-   x - bc * design; the forward pass of a nonlinear_solve ran with bc = 1 (r_pobj), its reverse rule runs while objective.p holds bc = 2 (a later load
-   step assigned it; all other slots agree).  Every hypothesis of C07_design_rule_ift except the one on objective.p holds, the rule returns ONE cotangent
-   c, and <v, u> <> <dp, c> for the implicit-function tangent u at the forward parameters. *)
+(* REMARK about the rule shape BEFORE /repo 42a60d0 (finding C07-DESIGN-RESTORE, fixed there): a statement about the model with restore kind RestoreSlot 2
+   (a value of model/M_C07_Refs.v's restore_kind; the regenerated restore_nonlinear_solve_b is now RestoreSaved and C07_design_rule_ift holds without any
+   hypothesis on objective.p).  Load stepping through objective.p: V = P = R, gradient x - bc * design; the forward pass ran with bc = 1 (r_pobj), the reverse
+   rule runs while objective.p holds bc = 2 (all other slots agree).  Every hypothesis of C07_design_rule_prefix_ift except the one on objective.p holds, the
+   rule of that shape returns ONE cotangent c, and <v, u> <> <dp, c> for the implicit-function tangent u at the forward parameters.  If the reverse rule
+   is changed back, C07_rule_tables_resolve fails and the load-stepping stream gives the concrete input. *)
 Theorem C07_design_rule_load_stepping_refuted :
   (forall a b : R, a * b = b * a)
   /\ (forall a b c t : R, a * (b + t * c) = a * b + t * (a * c))
@@ -302,7 +333,7 @@ Theorem C07_design_rule_load_stepping_refuted :
   /\ (forall p x v, solve_hyps R R Rplus Rmult Rmult r_gradx i_jvp i_cg 0 p x v)
   /\ List.length r_pobj = 6%nat
   /\ (forall j, (j < 6)%nat -> j <> 0%nat -> j <> 2%nat -> nth j (e_pcur R R r_env) None = nth j r_pobj None)
-  /\ let o := rule_out R R r_gradx i_vjp i_jvp i_cg 0 (fun z => z) objective_vjp_closures rule_nonlinear_solve_b restore_nonlinear_solve_b
+  /\ let o := rule_out R R r_gradx i_vjp i_jvp i_cg 0 (fun z => z) objective_vjp_closures rule_nonlinear_solve_b (RestoreSlot 2)
                 objective_hessian_vec_is_jvp_of_grad_x_at_self_p r_env in
      exists c dp u, snd o = [CotVal R c]
        /\ ift_tangent R R Rmult r_gradx i_jvp i_deriv (upd R r_pobj 2 (e_dsaved R R r_env)) (e_Uu R R r_env) 2 (e_dsaved R R r_env) dp u
@@ -315,9 +346,9 @@ Proof. exact design_rule_load_stepping_refuted. Qed.
    deliberately poor preconditioners and bound the error by the CG tolerance); the existence and differentiability of the solution map
    (the implicit function theorem itself: u is DEFINED by H u = -J dp).  In the history theorems the pull-backs b_At / b_Bt of the user's own
    parameter functions and the order in which JAX runs the rules (last solve first, cotangents summed) are the model's reading of jax.grad, checked
-   by the history / load-stepping / trace streams; of the forward passes only the handling of objective.p is modelled (the equation solver is a black box
-   returning the solution), and the records of fwd_run are not yet fed into hist_ok by a theorem (C07_forward_design_invariant states exactly the facts hist_ok
-   asks for).  The vjp wrappers of MechanicsInverse are not modelled (checked against dense jacfwd on the implementation only). *)
+   by the history / load-stepping / trace streams; of the forward passes only the handling of objective.p and of the saved residuals is modelled (the
+   equation solver is a black box returning the solution), and the records of the forward model are not yet fed into hist_ok by a theorem
+   (C07_forward_rule_saves_params_run_with states exactly the facts hist_ok asks of the saved Params).  The vjp wrappers of MechanicsInverse are not modelled (checked against dense jacfwd on the implementation only). *)
 
 Example C07_nonvacuous : forall h j v dp : R, 0 < h ->
   (forall z, qmodel R Rmult (fun x => h * x) v (- v / h) <= qmodel R Rmult (fun x => h * x) v z)
@@ -339,20 +370,20 @@ Proof. intros h j Hh. split; [exact (instance_hyps h j Hh)|intros; apply instanc
    state slot from the first solution and both take their boundary slot from theta *)
 Example C07_history_nonvacuous : forall h j a s : R, 0 < h -> forall dth b1 s1 x1 v1 b2 s2 x2 v2 : R,
   let t1 := hi_t h j a s dth 0 in let t2 := hi_t h j a s dth (t_dU R R t1) in
-  hist_ok R R R Rplus Rmult Rmult Rmult Rmult (i_gradx h j) i_jvp i_deriv i_cg 0 [] dth 0
+  hist_ok R R R Rplus Rmult Rmult Rmult Rmult (i_gradx h j) i_jvp i_deriv i_cg 0 dth 0
     [(hi_step a s (hi_par b2 s2) x2 v2, t2); (hi_step a s (hi_par b1 s1) x1 v1, t1)].
 Proof. exact history_nonvacuous. Qed.
 
-(* ... and those of the design-history theorem: two nonlinear_solve calls on an objective whose slots 0,1 are b, st; the objective.p of the two forward
-   passes differ in the design slot only *)
-Example C07_design_history_nonvacuous : forall h j a : R, 0 < h -> forall dth b st d1 x1 v1 d2 x2 v2 dold1 dold2 : R,
-  design_hist_ok R R R Rplus Rmult Rmult Rmult Rmult (i_gradx h j) i_jvp i_deriv i_cg 0 [Some b; Some st; None; None; None; None] dth 0
-    [(di_step a d2 x2 v2, di_t h j a dth dold2 b st); (di_step a d1 x1 v1, di_t h j a dth dold1 b st)].
+(* ... and those of the design-history theorem: two nonlinear_solve calls whose saved Params differ in every slot (different loads) *)
+Example C07_design_history_nonvacuous : forall h j a : R, 0 < h -> forall dth b1 st1 d1 x1 v1 b2 st2 d2 x2 v2 : R,
+  design_hist_ok R R R Rplus Rmult Rmult Rmult Rmult (i_gradx h j) i_jvp i_deriv i_cg 0 dth 0
+    [(di_step a b2 st2 d2 x2 v2, di_t h j a dth); (di_step a b1 st1 d1 x1 v1, di_t h j a dth)].
 Proof. exact design_history_nonvacuous. Qed.
 
 Print Assumptions C07_history_adjoint.
 Print Assumptions C07_design_rule_load_stepping_refuted.
-Print Assumptions C07_forward_design_invariant.
+Print Assumptions C07_forward_rule_saves_params_run_with.
+Print Assumptions C07_design_rule_ift.
 Print Assumptions C07_with_state_rule_ift.
 Print Assumptions C07_adjoint_identity.
 Print Assumptions C07_refs_resolve.
